@@ -26,6 +26,7 @@ CLAUSES = {
     "C14": ["C14_rejected", "C14_message", "C14_names", "C14_exit", "C14_no_blueprint"],
     "C15": ["R2_equal", "R2_exposed", "C01_value", "C03_value", "C06_entity", "C06_condition", "C06_enable", "C09_bag", "C09_extra", "C01_settles"],
     "C16": ["R2_equal", "R2_exposed", "C01_value", "C03_value", "C06_entity", "C06_condition", "C06_enable", "C09_bag", "C09_extra", "C01_settles"],
+    "C17": ["R2_equal", "R2_exposed", "C01_value", "C01_settles", "C17_terminates", "C17_import_trace", "C17_import_once"],
     "C20": ["C20_exposed", "C20_label", "C20_input", "C01_value", "C02_bag"],
 }
 
@@ -634,6 +635,82 @@ def c16(ctx):
                        "with its Unroll twin; entity conditions, placed entities and exported values of both builds judged against the "
                        "interpreter and compared in lock-step")
     fl_check(ctx, "loop:")
+
+
+@prop("C17")
+def c17(ctx):
+    allp = with_ids(gen.generate("GenImport"), "gi")
+    graphs = [dict(p, grp=p["grp"][6:]) for p in allp if p["grp"].startswith("graph:")]
+    libs = [dict(p, grp=p["grp"][4:]) for p in allp if p["grp"].startswith("lib:")]
+    ctx.cov["corpus_size"] = len(graphs) * 2 + len(libs)
+    ctx.cov["exhaustive"] = True
+    ctx.cov["rule"] = ("(1) Import design model checked exhaustively (every import relation over main + 3 files with <= 2 imports each: 28561 "
+                       "graphs) for OnceEach, Bounded and the liveness property Terminates; (2) 9 import graphs (single, chain, diamond, the same "
+                       "file twice, cycles of 2 and 3, self import) written to a scratch directory and compiled by file from two working "
+                       "directories: hook events validated as a complete behaviour of Import, both builds judged against the interpreter and "
+                       "compared in lock-step with the pasted twin (Facto!Paste); (3) every function of lib/math.facto x argument kinds, "
+                       "Refine1 against its documented mathematical definition over the boundary domain, skipping arguments for which the "
+                       "documented formula overflows")
+    ctx.assumptions = ASSUME_BASE + ["library contracts = the documentation's formulas transcribed in Facto!LibVal",
+                                     "termination: a compile that exceeds 120 s is reported as C17_terminates"]
+    design_mc(ctx, "MC_Import", "MC_Import.cfg")
+    # (2) graphs
+    recs = []
+    other = os.path.join(ctx.wd, "elsewhere")
+    os.makedirs(other, exist_ok=True)
+    for gi, p in enumerate(graphs):
+        d = os.path.join(ctx.wd, "imp%d" % gi)
+        os.makedirs(d, exist_ok=True)
+        for f, txt in p["filesrc"].items():
+            with open(os.path.join(d, f), "w") as fh:
+                fh.write(txt)
+        with open(os.path.join(d, "main.facto"), "w") as fh:
+            fh.write(p["src"])
+        for cw, tag in ((d, "here"), (other, "elsewhere")):
+            q = dict(p)
+            q["id"] = p["id"] + "-" + tag
+            q["job"] = {"source_name": os.path.join(d, "main.facto") if tag == "elsewhere" else "main.facto", "cwd": cw, "trace": True, "tracedir": ctx.wd}
+            recs.append(q)
+
+    def item(p, rs):
+        it = twin_item(p, rs)
+        it["files"] = p["files"]
+        return it
+    compiled_before = len(recs)
+    br = run_refine(ctx, recs, {"DomCap": 200}, item_fn=item, variants=[("", {}), ("#twin", {"__twin": True, "source_name": "<string>", "cwd": None, "trace": False})],
+                    batch_size=6, keep_results=True)
+    traces = []
+    for p in recs:
+        r = ctx.results.get(p["id"], {}).get("")
+        if not r:
+            continue
+        if r.get("status") == "timeout":
+            ctx.violation(p["id"], "C17_terminates", "compile did not return within the wall bound", {"src": p["src"], "item": {}, "module": "Import"})
+            continue
+        if r.get("status") != "ok":
+            continue
+        evs = [{"kind": e["kind"], "file": os.path.basename(e["path"])} for e in r.get("events", []) if e.get("ev") == "import"]
+        traces.append({"id": p["id"], "graph": p["graph"], "events": evs})
+    ok, rej, fails, states, errors = refine.run_trace_batches(ctx.wd, "TraceImport", refine.CFG_TRACE_IMPORT, traces, batch_size=30)
+    if errors:
+        raise Machinery("import trace validation failed to run: " + " | ".join(errors[:2]))
+    if len(ok) + len(rej) != len(traces):
+        raise Machinery("import trace validation: %d traces, %d verdicts" % (len(traces), len(ok) + len(rej)))
+    if traces and not any(t["events"] for t in traces):
+        raise Machinery("no import events were recorded (hook H4 missing?)")
+    ctx.add("states", states)
+    ctx.cov["import_traces_accepted"] = len(ok)
+    src = {p["id"]: p for p in recs}
+    for tid, got, total, nxt in rej:
+        ctx.violation(tid, "C17_import_trace", "import events are not a complete behaviour of Import: %d of %d explained; next: %s" % (got, total, nxt[:200]),
+                      {"src": src[tid]["src"], "item": {}, "module": "TraceImport"})
+    for tid, clause, info in fails:
+        ctx.violation(tid, clause, info, {"src": src[tid]["src"], "item": {}, "module": "TraceImport"})
+    # (3) library contracts
+    def litem(p, rs):
+        return {"id": p["id"], "stmts": p["stmts"], "u": 1, "dom": p["dom"], "bps": [prep_bp(rs[""]["bp"])]}
+    lsel = pick(libs, 20, ctx.seed) if ctx.tier == "quick" else libs
+    run_refine(ctx, lsel, {"DomCap": 200}, item_fn=litem, batch_size=6)
 
 
 @prop("C20")
